@@ -240,7 +240,7 @@ func runF(op string, in M) (M, M, M) {
 		data := make([]byte, ln-8)
 		var s int
 		var th *big.Int
-		p := vCatch(func() { s = sufficientTrailingZeros(data, target); th = targetHash(data, target) })
+		p := vCatch(func() { s = vSufficient(data, target); th = vTargetHash(data, target) })
 		if th == nil {
 			th = new(big.Int)
 		}
@@ -277,7 +277,7 @@ func runF(op string, in M) (M, M, M) {
 		}
 		l, h := buildPlanes(hashes)
 		var idx int
-		p := vCatch(func() { idx = checkStateTrits(&l, &h, sufficientTrailingZeros(data, target), targetHash(data, target)) })
+		p := vCatch(func() { idx = vCheck(&l, &h, vSufficient(data, target), vTargetHash(data, target)) })
 		tz := make([]int, 64)
 		var full []M
 		for j := range hashes {
@@ -294,10 +294,20 @@ func runF(op string, in M) (M, M, M) {
 	panic("unknown op " + op)
 }
 
+// White-box access (wb_test.go sets these from init); without them the white-box events are not generated.
+var vSufficient func([]byte, uint64) int
+var vTargetHash func([]byte, uint64) *big.Int
+var vCheck func(l, h *[consts.HashTrinarySize]uint, s int, t *big.Int) int
+
+func vWBOp(op string) bool { return op == "pow2.params" || op == "pow2.check" }
+
 func TestVerifDriver(t *testing.T) {
 	rec := vOpen()
 	defer rec.close()
 	emit := func(op string, in M) {
+		if vWBOp(op) && vSufficient == nil {
+			return
+		}
 		in = vNorm(in)
 		out, facts, cert := runF(op, in)
 		rec.i++
